@@ -436,7 +436,7 @@ func (s *HTTPService) ServeHTTP(w http.ResponseWriter, r *http.Request) {
 		if given {
 			str, ok := max.(string)
 			if !ok {
-				protest(ctx, err, w)
+				protest(ctx, fmt.Errorf("bad max %#v", max), w)
 				return
 			}
 			n, err := strconv.Atoi(str)
